@@ -548,21 +548,22 @@ def settleAfterTouch (cfg : Cfg) (s : State) (i : Inst) : State × List Tag :=
     else (withLive s i, [Tag.emptyLive])
   else (withLive s i, [])
 
+/-- one key of `Set` (gateway.go) -/
+def setOne (cfg : Cfg) (create over : Bool) (i : Inst) (it : Item) : Inst × St × List Tag :=
+  if !create && !AL.has it.key i.recs then (i, .nf, [])
+  else if !over && AL.has it.key i.recs then (i, .same, [])
+  else
+    let (t, tg0) := createTreasure i it.key
+    let (t', raised, tg1) := applyItem cfg t it
+    let (i1, st, tg2) := save cfg i it.key t' raised
+    (i1, st, tg0 ++ tg1 ++ tg2)
+
 def setLoop (cfg : Cfg) (create over : Bool) : Inst → List Item → Inst × List St × List Tag
   | i, [] => (i, [], [])
   | i, it :: rest =>
-    if !create && !AL.has it.key i.recs then
-      let (i', ss, tg) := setLoop cfg create over i rest
-      (i', .nf :: ss, tg)
-    else if !over && AL.has it.key i.recs then
-      let (i', ss, tg) := setLoop cfg create over i rest
-      (i', .same :: ss, tg)
-    else
-      let (t, tg0) := createTreasure i it.key
-      let (t', raised, tg1) := applyItem cfg t it
-      let (i1, st, tg2) := save cfg i it.key t' raised
-      let (i', ss, tg) := setLoop cfg create over i1 rest
-      (i', st :: ss, tg0 ++ tg1 ++ tg2 ++ tg)
+    let (i1, st, tg) := setOne cfg create over i it
+    let (i', ss, tgs) := setLoop cfg create over i1 rest
+    (i', st :: ss, tg ++ tgs)
 
 def shiftLoop : Inst → List Key → Inst × List (Key × Rec)
   | i, [] => (i, [])
